@@ -148,7 +148,7 @@ class ReorgDriver(IndexDriver):
         """C03's premise: the daemon's chain is longer than what the server had indexed.  After a
         switch to an equal or shorter branch the server cannot know yet; the daemon is extended."""
         w = self.w
-        limit = limit or self.SYNC_LIMIT
+        limit = self.sync_limit(limit)
         w.faults.enabled = False
         w.faults.script = []
         w.sim.stall_p = 0.0
